@@ -258,8 +258,12 @@ func (g *ugen) good(t reflect.Type, depth int, out []string) []string {
 	case reflect.Struct:
 		names, types := uStructMembers(t)
 		var ms [][]string
+		pct := 60
+		if depth > 3 { // self-referential types: the value must stay finite
+			pct = 12
+		}
 		for i := range names {
-			if r.P(60) {
+			if r.P(pct) {
 				ms = append(ms, g.good(types[i], depth+1, g.key(names[i], nil)))
 				if r.P(8) { // the same member twice
 					ms = append(ms, g.good(types[i], depth+1, g.key(names[i], nil)))
@@ -364,6 +368,9 @@ func uRandInit(r *Rand, t reflect.Type, depth int) string {
 		case 1:
 			return "[]"
 		}
+		if depth > 4 {
+			return "nil"
+		}
 		n := 1 + r.Intn(3)
 		if depth > 2 {
 			n = 1
@@ -380,6 +387,9 @@ func uRandInit(r *Rand, t reflect.Type, depth int) string {
 		case 1:
 			return "{}"
 		}
+		if depth > 4 {
+			return "nil"
+		}
 		keys := []string{"61", "6b6579", "6f6c64"}
 		n := 1 + r.Intn(len(keys))
 		if depth > 2 {
@@ -391,7 +401,7 @@ func uRandInit(r *Rand, t reflect.Type, depth int) string {
 		}
 		return "{" + strings.Join(es, ",") + "}"
 	case reflect.Ptr:
-		if r.P(40) {
+		if r.P(40) || depth > 4 {
 			return "nil"
 		}
 		return "&" + uRandInit(r, t.Elem(), depth+1)
@@ -490,11 +500,15 @@ func genUnfAny(r *Rand, tier string, emit func(string)) {
 }
 
 var uStructTargets = []string{"@S1", "@S2", "@S3", "@In", "@In2", "*@S1", "**@S2", "[]@S1", "map:@S1", "[]*@In2",
-	"map:*@S3", "[]@S3", "*[]@In", "map:[]@In", "[]map:@In", "[][]@In", "map:map:@In2", "*@S3"}
+	"map:*@S3", "[]@S3", "*[]@In", "map:[]@In", "[]map:@In", "[][]@In", "map:map:@In2", "*@S3",
+	// named and self-referential types
+	"@List", "@Tree", "@A", "@B", "@Named", "*@List", "[]@Tree", "map:@A", "**@B", "[]*@List", "map:[]@Tree", "@MyIn", "*@Named"}
 
 var uOtherTargets = []string{"[]any", "map:any", "[]int", "[]string", "map:string", "map:float64", "[]uint8", "[][]int16",
 	"map:[]string", "[]map:bool", "*int", "**string", "*[]*int8", "map:*float32", "[]*any", "*map:any", "[][][]uint", "*[]int",
-	"map:map:map:int", "[]**int"}
+	"map:map:map:int", "[]**int",
+	"@RL", "@RM", "@MyInt", "@MyStr", "@MyBool", "@MyF", "@MyU8", "@Strs", "@MyInts", "@M", "@MAny", "@Anys", "@PInt", "@MyAny", "@KM", "@KMS", "map:@KMS",
+	"[]@MyInt", "map:@Strs", "*@M", "[]@RL", "map:@RM", "*@MyInts", "[]@PInt"}
 
 // genUnfStructs: compatible documents (plus unknown members of every shape) into the
 // menagerie and into containers / pointers of it, optionally over an initial value
@@ -537,8 +551,27 @@ func genUnfStructs(r *Rand, tier string, emit func(string)) {
 		emit("unf none - - " + v)
 	}
 	// targets the unfolder refuses
-	for _, tn := range []string{"@BadInline", "@Dup", "@Arr", "@IMap", "[3]int", "imap:string", "*@Arr", "[]@IMap", "map:[2]bool", "[]@BadInline"} {
+	for _, tn := range []string{"@BadInline", "@Dup", "@Arr", "@IMap", "[3]int", "imap:string", "*@Arr", "[]@IMap", "map:[2]bool", "[]@BadInline",
+		"@BadA", "@BadB", "*@BadB", "[]@BadA"} {
 		emit(fmt.Sprintf("unf %s - - N", tn))
+	}
+	// a self-referential type that is refused, then a type that has only been seen on the way:
+	// the registry must not keep half-built unfolders
+	emit("unf-reuse @BadA - N")
+	for _, seq := range []string{"@BadA,@BadB", "@BadB,@BadA", "@BadA,@BadB,@BadA,@In", "@List,@BadA,@List,@BadB,@Tree", "@A,@B,@A", "@B,@BadB,@A,@BadA",
+		"@Tree,@Tree", "@RL,@RM,@RL", "[]@BadA,@BadB,*@BadB", "@S1,@Arr,@S1,@In", "@Named,@MyIn,@In", "@IMap,@S2,@BadInline,@S3"} {
+		emit("unf-seq " + seq)
+	}
+	// deep values of self-referential types
+	for _, d := range []int{1, 2, 5, 31, 32, 33, 64} {
+		l, tr := "N", "{-1:0,}"
+		for i := 0; i < d; i++ {
+			l = fmt.Sprintf("{2:0,K:76,i:%d,K:6e657874,%s,}", i, l)
+			tr = fmt.Sprintf("{-1:0,K:6b696473,[1:0,%s,],K:6d,{1:0,Q:6b,%s,},K:7570,%s,}", tr, "N", "{-1:0,K:6e616d65,S:75,}")
+		}
+		emit("unf @List - - " + l)
+		emit("unf *@List - - " + l)
+		emit("unf @Tree - 1 " + tr)
 	}
 	// every member kind of every value shape ignored, by value and by reference
 	for _, v := range uShapeProbes {
@@ -730,7 +763,8 @@ func genUnfLens(r *Rand, tier string, emit func(string)) {
 // genUnfReuse: one unfolder over several documents; abandon at every event index of small
 // documents, then a follow-up document
 func genUnfReuse(r *Rand, tier string, emit func(string)) {
-	targets := []string{"any", "[]any", "map:any", "[]int", "map:string", "@S1", "@S2", "@S3", "[]@In", "map:@In", "**@In", "[][]int", "*[]*int8", "map:map:int"}
+	targets := []string{"any", "[]any", "map:any", "[]int", "map:string", "@S1", "@S2", "@S3", "[]@In", "map:@In", "**@In", "[][]int", "*[]*int8", "map:map:int",
+		"@List", "@Tree", "@A", "@Named", "@RL", "@RM", "@M"}
 	small := tierN(tier, 6, 40)
 	for _, tn := range targets {
 		t := mustType(tn)
@@ -776,7 +810,8 @@ func genUnfReuse(r *Rand, tier string, emit func(string)) {
 
 // genUnfCache: key-cache capacities -1..4 (and larger) against map / struct / generic targets
 func genUnfCache(r *Rand, tier string, emit func(string)) {
-	targets := []string{"map:int", "map:any", "map:string", "any", "map:@In", "map:map:int", "map:[]int", "@S2", "[]map:uint8", "map:*int"}
+	targets := []string{"map:int", "map:any", "map:string", "any", "map:@In", "map:map:int", "map:[]int", "@S2", "[]map:uint8", "map:*int",
+		"@RM", "@M", "@Tree", "@KM"}
 	n := tierN(tier, 150, 3000)
 	for _, tn := range targets {
 		t := mustType(tn)
